@@ -74,18 +74,37 @@ AppendTo(lg, es) == [lg EXCEPT !.ents = lg.ents \o es]
 
 Compact(lg, i) == [base |-> i, bterm |-> TermAt(lg, i), ents |-> Suffix(lg, i + 1)]
 
+NoFile == [idx |-> 0, term |-> 0]
+
 \* takeSnapshot, run by the snapshot loop once the apply loop has applied everything committed
-\* (the state machine asked for it: `arm'): label = lastApplied, log compacted there
+\* (the state machine asked for it: `arm'): label = lastApplied, log compacted there.
+\* In the code these are two critical sections: the new file is PUBLISHED (Close) without the
+\* node's lock; lastIncludedIndex, the log and the open transfer files change only when the lock
+\* has been taken again.  With "Env:SnapWindow" in W the two are separate steps (spub = published,
+\* not adopted yet); otherwise one.
+SnapWindow == "Env:SnapWindow" \in W
 TakeSnapshot(s) ==
-  IF s.arm /\ s.commit > s.li.idx /\ HasIdx(s.log, s.commit) /\ s.ccfg.idx # 0 /\ s.ccfg.idx <= s.commit
+  IF s.arm /\ ~s.spub /\ s.commit > s.li.idx /\ HasIdx(s.log, s.commit) /\ s.ccfg.idx # 0 /\ s.ccfg.idx <= s.commit
     THEN LET lbl == [idx |-> s.commit, term |-> TermAt(s.log, s.commit)] IN
-         [s EXCEPT !.arm = FALSE, !.snap = lbl, !.li = lbl, !.log = Compact(s.log, s.commit), !.scfg = s.ccfg,
-                   !.soff = [p \in Node |-> 0]]          \* resetSnapshotFiles
+         IF SnapWindow THEN [s EXCEPT !.arm = FALSE, !.snap = lbl, !.scfg = s.ccfg, !.spub = TRUE]
+         ELSE [s EXCEPT !.arm = FALSE, !.snap = lbl, !.li = lbl, !.log = Compact(s.log, s.commit), !.scfg = s.ccfg,
+                        !.soff = [p \in Node |-> 0], !.sfile = [p \in Node |-> NoFile]]          \* resetSnapshotFiles
     ELSE s
+\* the second critical section of takeSnapshot
+AdoptNode(s) ==
+  IF ~s.spub THEN s
+  ELSE IF s.snap.idx > s.li.idx /\ HasIdx(s.log, s.snap.idx)
+    THEN [s EXCEPT !.spub = FALSE, !.li = s.snap, !.log = Compact(s.log, s.snap.idx), !.soff = [p \in Node |-> 0], !.sfile = [p \in Node |-> NoFile]]
+    ELSE [s EXCEPT !.spub = FALSE]
 
 \* a node that kept its log when it installed a snapshot compacts it once it has applied the boundary
+\* (the InstallSnapshot handler itself waits and compacts: `park'; a crash ends the wait, and a log
+\* that reaches below the snapshot then stays so until the node's next own snapshot)
 CompactParked(s) ==
-  IF s.li.idx > s.log.base /\ s.commit >= s.li.idx /\ HasIdx(s.log, s.li.idx) THEN [s EXCEPT !.log = Compact(s.log, s.li.idx)] ELSE s
+  IF ~s.park THEN s
+  ELSE IF s.li.idx <= s.log.base THEN [s EXCEPT !.park = FALSE]      \* compacted meanwhile by the node's own snapshot
+  ELSE IF s.commit >= s.li.idx /\ HasIdx(s.log, s.li.idx) THEN [s EXCEPT !.log = Compact(s.log, s.li.idx), !.park = FALSE]
+  ELSE s
 
 
 \* static membership in this module's core; Membership.tla refines these two
@@ -117,11 +136,16 @@ InitNode ==
     arm |-> FALSE,                                    \* the state machine will ask for a snapshot after the next applied entry
     rs |-> [idx |-> 0, term |-> 0, off |-> 0],        \* partial incoming snapshot file (idx = 0: none)
     soff |-> [p \in Node |-> 0],                     \* leader: read offset in the snapshot file being sent to p
+    sfile |-> [p \in Node |-> NoFile],               \* leader: label of the snapshot file it has open for p (stays open until the transfer ends)
     \* rounds (asynchronous grain): every sendRequestVoteToPeers / sendAppendEntriesToPeers call
     \* allocates one counter shared by the goroutines of that round
     vr |-> 0,                                         \* vote rounds started so far
     hbr |-> 0,                                        \* heartbeatRound: replication rounds started so far
     cnt |-> <<>>,                                     \* round key <<kind, k>> -> responses counted (1 = the node itself)
+    park |-> FALSE,                                   \* an InstallSnapshot handler that kept the log waits to compact it
+    spub |-> FALSE,                                   \* takeSnapshot has published its file but not taken the lock again
+    xops |-> 0,                                       \* (history) ... of which client operations
+    xtra |-> 0,                                       \* (history) operations the state machine holds beyond the label it was restored under
     rsp |-> <<>>,                                     \* (history) replication round k -> voters whose responses were counted
     reads |-> {},                                     \* pending linearizable reads [id, ridx, vround, ver, must]
     svq |-> TRUE,                                     \* shouldVerifyQuorum
@@ -144,14 +168,14 @@ BecomeFollower(s, t, site) ==
                                ELSE IF t # s.term \/ "ClearVoteSameTerm" \in W THEN Nil ELSE s.vote,
                       !.pend = IF ("KeepPend@" \o site) \in W \/ "PendingNotCleared" \in W THEN s.pend ELSE <<>>,
                       \* resetSnapshotFiles: a partial incoming snapshot is discarded, open readers are closed
-                      !.rs = [idx |-> 0, term |-> 0, off |-> 0], !.soff = [p \in Node |-> 0],
+                      !.rs = [idx |-> 0, term |-> 0, off |-> 0], !.soff = [p \in Node |-> 0], !.sfile = [p \in Node |-> NoFile],
                       \* new operation manager: pending reads are failed (ErrNotLeader)
                       !.reads = {}, !.svq = TRUE, !.cfut = 0] IN
   Persist(s1, site)
 
 BecomeLeader(s, n) ==
   [s EXCEPT !.role = "L", !.reads = {}, !.svq = TRUE,
-            !.rs = [idx |-> 0, term |-> 0, off |-> 0], !.soff = [p \in Node |-> 0],
+            !.rs = [idx |-> 0, term |-> 0, off |-> 0], !.soff = [p \in Node |-> 0], !.sfile = [p \in Node |-> NoFile],
             \* (the followers map only holds the members of the configuration in force)
             !.next = [p \in Node |-> IF p \in MembersOf(s) THEN LastIdx(s.log) + 1 ELSE s.next[p]],
             !.match = IF "MatchNotReset" \in W THEN s.match ELSE [p \in Node |-> IF p \in MembersOf(s) THEN 0 ELSE s.match[p]],
@@ -294,9 +318,24 @@ OnAEReply(s, n, p, m, r) ==
 
 ISRequest(s, n, p) ==
   LET off == s.soff[p]
-      nbytes == SnapSize - off IN
-  [kind |-> "is", from |-> n, term |-> s.term, idx |-> s.snap.idx, sterm |-> s.snap.term,
+      nbytes == SnapSize - off
+      \* the file that is open for p, else the newest published one (opened now)
+      file == IF s.sfile[p].idx # 0 THEN s.sfile[p] ELSE s.snap
+      \* the label comes from the file's metadata (weakening ISLabelFromNode: from the node's
+      \* lastIncludedIndex / lastIncludedTerm); cidx = what the file's bytes really contain
+      lbl == IF "ISLabelFromNode" \in W THEN s.li ELSE file IN
+  \* xops: client operations the bytes contain beyond the label (what an execution can show)
+  [kind |-> "is", from |-> n, term |-> s.term, idx |-> lbl.idx, sterm |-> lbl.term, cidx |-> file.idx,
+   xops |-> Cardinality({i \in (lbl.idx + 1)..file.idx : HasIdx(s.log, i) /\ At(s.log, i).k = "op"}),
    off |-> off, n |-> nbytes, done |-> nbytes < 2 \/ SnapSize = 1, cfg |-> s.scfg]
+
+\* a replication step towards all followers (heartbeat, submission) opens the newest snapshot for
+\* every follower that needs one and has no transfer open; the file stays open until the transfer
+\* ends or the files are reset (modelled with Env:SnapWindow only)
+Touch(s) ==
+  IF ~("Env:SnapWindow" \in W) \/ s.role # "L" \/ s.li.idx = 0 THEN s
+  ELSE [s EXCEPT !.sfile = [q \in Node |-> IF q \in MembersOf(s) /\ q # s.me /\ s.next[q] <= s.li.idx /\ s.sfile[q].idx = 0
+                                               THEN s.snap ELSE s.sfile[q]]]
 
 HandleIS(s, m) ==
   LET rep(st, w) == [s |-> st, reply |-> [term |-> st.term, written |-> w]] IN
@@ -322,10 +361,11 @@ HandleIS(s, m) ==
                                !.li = [idx |-> m.idx, term |-> m.sterm]]
               keep == HasIdx(s2.log, m.idx) /\ (TermAt(s2.log, m.idx) = m.sterm \/ "InstallKeepsLogAnyTerm" \in W) IN
           IF keep
-            THEN rep(CompactParked(s2), f2.off)       \* log kept; compacted once the boundary is applied
+            THEN rep(CompactParked([s2 EXCEPT !.park = TRUE]), f2.off)       \* log kept; compacted once the boundary is applied
             ELSE \* restore the state machine from the newest snapshot, discard the whole log
                  \* and applyConfiguration(request.Configuration)
-                 LET s3 == [s2 EXCEPT !.commit = m.idx, !.log = [base |-> m.idx, bterm |-> m.sterm, ents |-> <<>>]]
+                 LET s3 == [s2 EXCEPT !.commit = m.idx, !.log = [base |-> m.idx, bterm |-> m.sterm, ents |-> <<>>],
+                                      !.xtra = m.cidx - m.idx, !.xops = m.xops]
                      newer == ~(s3.ccfg.idx # 0 /\ m.cfg.idx <= s3.ccfg.idx) IN
                  rep(IF newer THEN [s3 EXCEPT !.cfg = m.cfg, !.ccfg = m.cfg] ELSE s3, f2.off)
 
@@ -333,7 +373,7 @@ OnISReply(s, n, p, m, r) ==
   IF r.term > s.term THEN BecomeFollower(s, r.term, "isr")
   ELSE IF r.written # m.off THEN [s EXCEPT !.soff[p] = r.written]
   ELSE IF ~m.done THEN s
-  ELSE [s EXCEPT !.soff[p] = 0, !.match[p] = m.idx, !.next[p] = m.idx + 1]
+  ELSE [s EXCEPT !.soff[p] = 0, !.sfile[p] = NoFile, !.match[p] = m.idx, !.next[p] = m.idx + 1]
 
 -----------------------------------------------------------------------------
 (* History and action-level property observations *)
@@ -489,8 +529,9 @@ RVPair(s, sp, n, p, sticky, stay) ==
       c == OnRVReply([s EXCEPT !.asked = s.asked \cup {p}], n, m, h.reply, stay)
       c2 == IF c.role = "L" /\ SingleServer(c, n) THEN [c EXCEPT !.commit = CommitIndexOf(c, n)] ELSE c IN
   [c |-> c2, h |-> h.s]
-AEPair(s, sp, n, p) ==
-  LET m == AERequest(s, n, p)
+AEPair(s0, sp, n, p) ==
+  LET s == Touch(s0)
+      m == AERequest(s, n, p)
       h == HandleAE(sp, m) IN
   [c |-> OnAEReply(s, n, p, m, h.reply), h |-> h.s]
 
@@ -601,15 +642,17 @@ ISExchange(n, p) ==
   /\ n # p /\ Up(n) /\ Up(p)
   /\ s.role = "L" /\ p \in MembersOf(s)
   /\ s.next[p] <= s.li.idx /\ s.li.idx > 0
+  /\ ~ns[p].spub                       \* the receiver's last chunk waits for its own takeSnapshot to finish
   /\ Spend("ae")
   \* At this grain the transfer is one step: the file from offset 0 to the end, then the
   \* completion on the sender.  (How many requests that takes in the code depends on the
   \* sender's file offset, which every lost request advances; the request-level operators
   \* ISRequest / HandleIS / OnISReply with offsets are exercised at the handler grain.)
-  /\ LET m == [ISRequest([s EXCEPT !.soff[p] = 0], n, p) EXCEPT !.n = SnapSize, !.done = TRUE]
+  /\ LET t == Touch(s)
+         m == [ISRequest([t EXCEPT !.soff[p] = 0], n, p) EXCEPT !.n = SnapSize, !.done = TRUE]
          h == HandleIS([ns[p] EXCEPT !.rs = [idx |-> 0, term |-> 0, off |-> 0]], m)
          c == IF h.reply.term > s.term THEN BecomeFollower(s, h.reply.term, "isr")
-              ELSE [s EXCEPT !.soff[p] = 0, !.match[p] = m.idx, !.next[p] = m.idx + 1] IN
+              ELSE [t EXCEPT !.soff[p] = 0, !.sfile[p] = NoFile, !.match[p] = m.idx, !.next[p] = m.idx + 1] IN
      /\ ns' = [ns EXCEPT ![p] = Fin(ns[p], h.s), ![n] = Fin(s, c)]
      /\ Hist2(n, c, p, h.s)
   /\ UNCHANGED net
@@ -623,7 +666,7 @@ ClientSubmit(n, v) ==
   /\ LET s1 == [s EXCEPT !.log = AppendTo(s.log, <<Entry(s.term, "op", v)>>),
                          !.pend = [i \in DOMAIN s.pend \cup {LastIdx(s.log) + 1} |->
                                      IF i = LastIdx(s.log) + 1 THEN v ELSE s.pend[i]]]
-         s2 == IF SingleServer(s1, n) THEN [s1 EXCEPT !.commit = CommitIndexOf(s1, n)] ELSE s1 IN
+         s2 == Touch(IF SingleServer(s1, n) THEN [s1 EXCEPT !.commit = CommitIndexOf(s1, n)] ELSE s1) IN
      /\ ns' = [ns EXCEPT ![n] = Fin(s, s2)]
      /\ Hist1(n, s2)
   /\ UNCHANGED net
@@ -647,12 +690,18 @@ Crash(n) ==
          ccf == IF top = 0 THEN s.scfg ELSE IF sec # 0 THEN asCfg(sec) ELSE s.scfg
          s1 == [InitNode EXCEPT !.me = s.me, !.role = "D", !.term = dt, !.vote = dv, !.dterm = dt, !.dvote = dv,
                                 !.log = s.log, !.snap = s.snap, !.li = s.snap, !.commit = s.snap.idx,
-                                !.scfg = s.scfg, !.cfg = cf, !.ccfg = ccf] IN
+                                !.scfg = s.scfg, !.cfg = cf, !.ccfg = ccf, !.xtra = s.xtra, !.xops = s.xops] IN
      /\ ns' = [ns EXCEPT ![n] = s1]
      \* C08: the term a node has shown to others never decreases, not even across a crash
      /\ elected' = elected /\ comm' = comm /\ voted' = voted /\ acked' = acked
      /\ viol' = viol \cup (IF dt < s.term THEN {"TermMonotone"} ELSE {})
   /\ UNCHANGED net
+
+\* takeSnapshot's second critical section (only with Env:SnapWindow)
+AdoptSnapshot(n) ==
+  /\ Up(n) /\ ns[n].spub
+  /\ ns' = [ns EXCEPT ![n] = AdoptNode(ns[n])]
+  /\ UNCHANGED <<net, budget, elected, comm, voted, acked, viol>>
 
 Restart(n) ==
   /\ ns[n].role = "D"
@@ -819,7 +868,7 @@ Next ==
   \/ \E n \in Node : TimerFire(n)
   \/ \E n, p \in Node : RVExchange(n, p) \/ RVHalf(n, p) \/ AEExchange(n, p) \/ AEHalf(n, p)
   \/ \E n \in Node, v \in Value : ClientSubmit(n, v)
-  \/ \E n \in Node : Crash(n) \/ Restart(n) \/ ArmSnapshot(n)
+  \/ \E n \in Node : Crash(n) \/ Restart(n) \/ ArmSnapshot(n) \/ AdoptSnapshot(n)
   \/ \E n, p \in Node : ISExchange(n, p)
   \/ \E n, p \in Node : RemoveServer(n, p) \/ \E voter \in BOOLEAN : AddServer(n, p, voter)
   \/ \E n \in Node : TimerFireA(n) \/ StartRound(n) \/ ClientRead(n)
@@ -854,6 +903,11 @@ ReadsHeardMajority == "ReadWithoutMajority" \notin viol
 RoundQuorumDistinct ==
   \A n \in Node : \A key \in DOMAIN ns[n].cnt :
     key[1] = "h" => ns[n].cnt[key] <= 1 + Cardinality(Get(ns[n].rsp, key[2], {}))
+
+\* C10: a state machine restored from an installed snapshot holds exactly the operations up to the
+\* label it was installed under
+SnapshotLabelExact == \A n \in Node : ns[n].xtra = 0
+SnapshotLabelExactOp == \A n \in Node : ns[n].xops = 0
 
 \* C09: the configuration a node has in force is a configuration entry of its own log or lies
 \* within its snapshot
